@@ -322,6 +322,8 @@ pub struct Observed {
     /// address -> positive balances sorted by denom
     pub balances: BTreeMap<String, Vec<(String, u128)>>,
     pub xmarks: BTreeMap<u32, String>,
+    pub delegations: BTreeMap<(String, String), u128>,
+    pub supply: BTreeMap<String, u128>,
 }
 
 pub fn compare_state(pred: &Observed, act: &Observed, failures: usize, ever_written: &BTreeMap<String, std::collections::BTreeSet<Vec<u8>>>) -> Vec<Disc> {
@@ -364,6 +366,12 @@ pub fn compare_state(pred: &Observed, act: &Observed, failures: usize, ever_writ
                 break;
             }
         }
+    }
+    if pred.delegations != act.delegations {
+        out.push(Disc::new(&[if failures > 0 { "C02" } else { "C01" }, "C14"], "state:delegations", format!("delegations {:?}, expected {:?}", act.delegations, pred.delegations)));
+    }
+    if pred.supply != act.supply {
+        out.push(Disc::new(&[if failures > 0 { "C02" } else { "C01" }, "C09"], "state:supply", format!("supply {:?}, expected {:?}", act.supply, pred.supply)));
     }
     if pred.xmarks != act.xmarks {
         out.push(Disc::new(&[if failures > 0 { "C02" } else { "C17" }], "state:custom-module", format!("custom module markers {:?}, expected {:?}", act.xmarks, pred.xmarks)));
